@@ -102,7 +102,7 @@ fn render(t: &[(i128, u8)], n: usize, tag: usize) -> String {
     s
 }
 
-fn client(id: usize, seed: u64, ops: usize) {
+fn client(id: usize, seed: u64, ops: usize, start: &std::sync::Barrier) {
     let t = table();
     let mut r = Lcg(seed ^ (id as u64 + 1).wrapping_mul(0x9E37_79B9_7F4A_7C15));
     // each client loads a different bulletin (a different prefix of the real list)
@@ -119,9 +119,15 @@ fn client(id: usize, seed: u64, ops: usize) {
     let s0 = ntp(1960, 1, 1);
     let s1 = ntp(1972, 1, 1);
     let mut provider: Option<LeapSecondsFile> = None;
+    // Everybody sets up first and starts together, and each client's FIRST operation is the
+    // process's first use of one of the entry points (a conversion through the built-in table, an
+    // IERS-only lookup, a file load): whatever is initialised lazily, on first use, is initialised
+    // while the other clients are arriving.
+    start.wait();
     for k in 0..ops {
         let (ts, dat) = t[r.below(28) as usize];
-        match r.below(8) {
+        let what = if k == 0 { [2u64, 5, 0, 4, 2, 5][(seed as usize + id) % 6] } else { r.below(8) };
+        match what {
             0 => {
                 // load this client's bulletin and compare it with what was rendered
                 let p = LeapSecondsFile::from_path("/mem/leap-seconds.list")
@@ -203,8 +209,12 @@ fn main() {
     let seed: u64 = a.get(1).and_then(|s| s.parse().ok()).unwrap_or(1);
     let threads: usize = a.get(2).and_then(|s| s.parse().ok()).unwrap_or(3);
     let ops: usize = a.get(3).and_then(|s| s.parse().ok()).unwrap_or(24);
+    let start = std::sync::Arc::new(std::sync::Barrier::new(threads));
     let hs: Vec<_> = (0..threads)
-        .map(|id| std::thread::spawn(move || client(id, seed, ops)))
+        .map(|id| {
+            let start = start.clone();
+            std::thread::spawn(move || client(id, seed, ops, &start))
+        })
         .collect();
     let mut failed = false;
     for h in hs {
